@@ -34,5 +34,13 @@ for k,v in groups.items():
                     print(k,"path",c["paths"][x//2],"allowInc",x%2==1); print("    impl :",ii[x],"=>",pi[x]); print("    model:",mi[x]); print("    spec :",si[x]); break
             else: print(k,"(length mismatch)",i[:200],mm[:200],ss[:200])
             continue
+        if "probes" in c and os.environ.get("ITEM","1")=="1":
+            ii=i.split(";"); mi=mm.split(";"); si=ss.split(";"); pi=(chk.project(PROJ,i) if PROJ else i).split(";")
+            if len(ii)==len(mi)==len(si):
+                for x in range(len(ii)):
+                    if ii[x]!=mi[x] or pi[x]!=si[x]:
+                        print(k,"probe",repr(c["probes"][x]),json.dumps({a:b for a,b in c.items() if a not in("id","k","probes")},ensure_ascii=False)[:int(os.environ.get("W","600"))]); print("    impl :",ii[x],"=>",pi[x]); print("    model:",mi[x]); print("    spec :",si[x]); break
+                continue
+            print(k,"(shape)",i[:150],"|",mm[:150],"|",ss[:150]); continue
         print(k, c.get("text") or json.dumps({a:b for a,b in c.items() if a not in("id","k")},ensure_ascii=False)); print("    impl :",i); print("    model:",mm); 
         if ss!=mm: print("    spec :",ss)
